@@ -32,13 +32,36 @@ theorem generated_pipeline_known :
       "simplify_literals", "simplify_equality", "simplify_parens", "simplify_datetrunc", "sort_comparison",
       "simplify_startswith"] := by decide
 
-/-- rewrite_between is exact -/
-theorem rewrite_between_sound (p : Bool) (e : E) (env : Env) : eval env (rewriteBetween p e) = eval env e := by
+/-- rewrite_between is exact (whatever the parent: the only thing the parent decides is a pair of parentheses) -/
+theorem rewrite_between_sound (p : PK) (e : E) (env : Env) : eval env (rewriteBetween p e) = eval env e := by
   cases e <;> simp [rewriteBetween, eval]
   split <;> simp [eval]
 
-example : rewriteBetween true (.between (.icol 0 false) (.int 1) (.int 3)) ≠ .between (.icol 0 false) (.int 1) (.int 3) := by
+example : rewriteBetween .none (.between (.icol 0 false) (.int 1) (.int 3)) ≠ .between (.icol 0 false) (.int 1) (.int 3) := by
   decide
+
+/-- text level (5af9b60): the AND that replaces a BETWEEN stays grouped under IS, a comparison, IN, arithmetic, unary
+    minus and NOT; simplify_parens does not drop that Paren again; and it is needed — an AND is not `reparseSafe` in any of
+    those operand slots.  Under a connector or at the top it is left bare (and that is safe). -/
+theorem rewrite_between_keeps_grouping :
+    ([PK.is, .cmp, .inList, .add, .sub, .mul, .neg, .not].all fun pk =>
+      rewriteBetween pk (.between (.icol 0 false) (.int 1) (.int 2))
+        == .paren (.and (.cmp .gte (.icol 0 false) (.int 1)) (.cmp .lte (.icol 0 false) (.int 2))) &&
+      simplifyParens pk (.paren (.and (.cmp .gte (.icol 0 false) (.int 1)) (.cmp .lte (.icol 0 false) (.int 2))))
+        == .paren (.and (.cmp .gte (.icol 0 false) (.int 1)) (.cmp .lte (.icol 0 false) (.int 2)))) = true ∧
+    ([PKind.is, .eq, .rel, .add, .sub, .mul, .neg, .not].all fun p => [0, 1].all fun pos => !reparseSafe p pos .and) = true ∧
+    reparseSafe .inList 0 .and = false ∧
+    ([PK.none, .and, .or, .paren].all fun pk =>
+      rewriteBetween pk (.between (.icol 0 false) (.int 1) (.int 2))
+        == .and (.cmp .gte (.icol 0 false) (.int 1)) (.cmp .lte (.icol 0 false) (.int 2))) = true ∧
+    reparseSafe .and 0 .and = true ∧ reparseSafe .or 1 .and = true := by decide
+
+/-- why: rewrite_between as it was before 5af9b60 (snapshot `rewriteBetweenNotOnly`: parentheses under NOT only) puts a bare
+    AND into the subject slot of IS — `x BETWEEN 1 AND 2 IS NULL → x >= 1 AND x <= 2 IS NULL` — which is not `reparseSafe` -/
+theorem rewrite_between_not_only_witness :
+    rewriteBetweenNotOnly .is (.between (.icol 0 false) (.int 1) (.int 2))
+      = .and (.cmp .gte (.icol 0 false) (.int 1)) (.cmp .lte (.icol 0 false) (.int 2)) ∧
+    reparseSafe .is 0 .and = false := by decide
 
 theorem cmpVal_complement (c : Cmp → Cmp) (hc : ComplementOK c) (op : Cmp) (x y : Val) :
     cmpVal (c op) x y = ofB3 (not3 (truth (cmpVal op x y))) := by
@@ -424,6 +447,21 @@ theorem simplify_coalesce_cmp_sound (op : Cmp) (left : Bool) (first rest other x
 example : coalesceRewrite true (some .lt) false (.icol 0 false) (.cons (.int 1) .nil) (.int 2)
     = some (.paren (mkOr (mkAnd (.not (.is (.icol 0 false) .null)) (.cmp .lt (.int 2) (.coalesce (.cons (.icol 0 false) .nil))))
                          (mkAnd (.is (.icol 0 false) .null) (.cmp .lt (.int 2) (.int 1))))) := by decide
+
+-- `simplify_coalesce_cmp_sound` is for ANY number of arguments before the constant (`evalCoalesce_split` is by induction
+-- over the prefix); with two of them the guard subject is the truncated COALESCE(x, y), not x:
+example : coalesceRewrite true (some .eq) true (.icol 0 false) (.cons (.icol 1 false) (.cons (.int 1) .nil)) (.int 2)
+    = some (.paren (mkOr
+        (mkAnd (.not (.is (.coalesce (.cons (.icol 0 false) (.cons (.icol 1 false) .nil))) .null))
+               (.cmp .eq (.coalesce (.cons (.icol 0 false) (.cons (.icol 1 false) .nil))) (.int 2)))
+        (mkAnd (.is (.coalesce (.cons (.icol 0 false) (.cons (.icol 1 false) .nil))) .null) (.cmp .eq (.int 1) (.int 2))))) := by decide
+
+/-- why the guard subject must be the whole truncated COALESCE: with the first argument alone
+    (`coalesceRewriteFirstArgGuard`) `COALESCE(x, y, 1) = 2` is FALSE for x NULL, y = 2 where the input is TRUE -/
+theorem simplify_coalesce_guard_subject_needed :
+    ∃ x env, coalesceRewriteFirstArgGuard (some .eq) (.icol 0 false) (.cons (.icol 1 false) (.cons (.int 1) .nil)) (.int 2) = some x ∧
+      eval env x ≠ eval env (.cmp .eq (.coalesce (.cons (.icol 0 false) (.cons (.icol 1 false) (.cons (.int 1) .nil)))) (.int 2)) :=
+  ⟨_, ⟨fun _ => none, fun k => if k = 1 then some 2 else none⟩, rfl, by decide⟩
 
 /-- why the NULL literal must not end the COALESCE: the earlier rule (`skipNull = false`, before e0979fa) loses the
     arguments after it — `COALESCE(x, NULL, y) = 1` became `(NOT x IS NULL AND x = 1) OR (x IS NULL AND NULL = 1)` -/
